@@ -44,6 +44,17 @@ def main():
         # the caller stands in the metafile's directory and names it by its bare file name
         os.chdir(os.path.dirname(spec["metafile"]))
         spec["metafile"] = os.path.basename(spec["metafile"])
+    if mode == "kill-after-replace":
+        # the process dies the moment the rename has returned (nothing after it runs)
+        real_replace, real_rename = os.replace, os.rename
+
+        def dying(fn):
+            def wrapper(*a, **kw):
+                fn(*a, **kw)
+                os._exit(37)
+            return wrapper
+        os.replace, os.rename = dying(real_replace), dying(real_rename)
+        shutil.move = dying(shutil.move)
     if mode == "short-oswrite":
         real_write = os.write
         left = [prefix]
